@@ -10,6 +10,7 @@ CONSTANTS
   Greetings = {"PREAUTH"}
   SimDepth = 60
   Count = FALSE
+  MaxDepth = 0
 INIT GenInit
 NEXT GenNext
 CHECK_DEADLOCK FALSE
